@@ -45,7 +45,8 @@ def handle (args : List String) (impl : List String) : String :=
         { x := xs.getD i [], z := (List.range nvar).map (fun a => Z.getD (i + a * nech) none),
           w := W.getD i none, active := act.getD i false }
       let d : Dir := { codir := codir, psmin2 := psmin * psmin, bench := bench, cylrad := cyl,
-                       npas := npas, dpas := dpas, toldis := toldis, order4 := (look m "calc") == some "order4", breaks := breaks }
+                       npas := npas, dpas := dpas, toldis := toldis, order4 := (look m "calc") == some "order4", breaks := breaks,
+                       est := (match look m "calc" with | some "poisson" => 2 | some "madogram" => 3 | some "rodogram" => 4 | _ => 0) }
       -- exclude configurations with a decision too close to a boundary (exact margins)
       let ps := pairsOf (samples.filter usable)
       let risky := ps.any fun (a, b) =>
@@ -57,9 +58,20 @@ def handle (args : List String) (impl : List String) : String :=
           (match cyl with | some c => c > 0 && absQ (d2 * prod - d2 * sq (dotL delta codir) - sq c * prod) ≤ margin * prod | none => false))
       if risky then pure "skip decision-margin" else
       if sw.length ≠ npas then pure s!"bad number of lags {sw.length}" else
+      -- the mean of the variable reported by the variogram (when the harness gives it)
+      let meanBad := match look o "mean" with
+        | some t => (match parseOQ? t, meanOf iv samples with
+            | some (some mi), some mm => !(closeQ (pow2 (-40)) mm mi)
+            | some none, none => false
+            | some (some _), none => false      -- no defined value: the library leaves 0
+            | _, _ => true)
+        | none => false
+      if meanBad then pure s!"bad mean of variable {iv}: model={(meanOf iv samples).map fmtRat}" else
       let bad := (List.range npas).findSome? fun k =>
-        let (msw, mgg, terms) := lagDef d iv jv k samples
-        if msw != sw.getD k 0 then some s!"bad lag={k} pair weight: model={fmtRat msw} impl={fmtRat (sw.getD k 0)}"
+        let (msw, mgg0, terms) := lagDef d iv jv k samples
+        let mgg := if d.est = 2 && !d.order4 then (poissonLag d iv jv k samples).2 else mgg0
+        -- Poisson pair weights w1 w2 / (w1 + w2) are not dyadic: compared to 2^-40 (all the others exactly)
+        if (if d.est = 2 then !(closeQ (pow2 (-40)) msw (sw.getD k 0)) else msw != sw.getD k 0) then some s!"bad lag={k} pair weight: model={fmtRat msw} impl={fmtRat (sw.getD k 0)}"
         else match mgg, gg.getD k none with
           | none, none => none
           | some g, some gi =>
